@@ -79,6 +79,39 @@ def single_master_state(e4, srv, master, workers, pidfile, v, label):
     return w
 
 
+def final_stop(e4, srv, master, pidfile, v, run):
+    """Stop the last master: nothing may be left behind (pid files, unix socket file, processes)."""
+    # the last master must still manage its pool (clients are quiet now): a killed worker is reaped and replaced
+    w = srv.worker_pids(master)
+    workers = len(w)
+    if w:
+        victim = w[0]
+        try:
+            os.kill(victim, signal.SIGKILL)
+        except OSError:
+            pass
+        ok = wait_until(lambda: victim not in srv.worker_pids(master) and len(srv.worker_pids(master)) == workers, 8.0)
+        zomb = [p for p, (pp, st_, _) in e4.proc_table().items() if pp == master and st_ == "Z"]
+        if not ok or zomb:
+            v.append(("survivor-does-not-replace-dead-worker", "killed worker %d of master %d: live workers %s, zombies %s" % (
+                victim, master, srv.worker_pids(master), zomb)))
+        else:
+            run.count("respawn_after_upgrade_checks")
+    srv.signal(signal.SIGTERM, master)
+    st = srv.wait_exit(master, 12)
+    time.sleep(0.5)
+    if st is None and e4.alive(master):
+        v.append(("master-did-not-exit", "last master %d did not exit after TERM" % master))
+        return
+    left = [p for p in (pidfile, pidfile + ".2") if os.path.exists(p)]
+    if left:
+        v.append(("pidfile-left-behind-after-last-master", "%s still present" % left))
+    if srv.bind_kind == "unix" and os.path.exists(srv.sockpath):
+        v.append(("unix-socket-file-left-behind-after-last-master", "the socket file outlives the last master (it inherited the listener "
+                  "through the upgrade)"))
+    run.count("final_stop_checks")
+
+
 def run_scenario(run, e4, sc):
     v = []
     info = {}
@@ -148,8 +181,7 @@ def run_scenario(run, e4, sc):
             if refused:
                 v.append(("client-refused-during-upgrade", "%d of %d connection attempts failed (%s)" % (
                     len(refused), len(log), refused[0].get("err") or refused[0]["outcome"])))
-            srv.signal(signal.SIGTERM, new)
-            srv.wait_exit(new, 10)
+            final_stop(e4, srv, new, pidfile, v, run)
             return v, None, info
         new = find_new_master(e4, srv, old, set(w_old))
         if new is None:
@@ -204,8 +236,7 @@ def run_scenario(run, e4, sc):
             refused = [r for r in log if r["outcome"] in ("refused", "error")]
             if refused:
                 v.append(("client-refused-during-upgrade", "%d of %d connection attempts failed" % (len(refused), len(log))))
-            srv.signal(signal.SIGTERM, old)
-            srv.wait_exit(old, 10)
+            final_stop(e4, srv, old, pidfile, v, run)
             return v, None, info
         # ---- who exits first ---------------------------------------------------------------------------
         graceful = hist in ("H1", "H3", "H5", "H6")
@@ -263,9 +294,7 @@ def run_scenario(run, e4, sc):
             cut = [r for r in log if r["outcome"] == "truncated" or (r["outcome"] in ("reset", "timeout") and r["data"])]
             if cut:
                 v.append(("response-cut-during-graceful-upgrade", "%d responses cut: %r" % (len(cut), cut[0]["data"][:80])))
-        # final stop
-        srv.signal(signal.SIGTERM, final)
-        srv.wait_exit(final, 10)
+        final_stop(e4, srv, final, pidfile, v, run)
         return v, None, info
     finally:
         stop.set()
@@ -316,7 +345,7 @@ def main(tier, seed):
     run = Run(PROP, tier, seed, "exploration", RULE)
     run.require("scenarios", "upgrades_started", "both_live_pidfile_checks", "second_usr2_ignored_checks", "first_exit_observed",
                 "single_master_state_checks", "second_upgrade_works_checks", "client_requests", "bind/tcp", "bind/unix",
-                "history/H1", "history/H3", "history/H5", "history/H6", "history/H8", "history/H7", "winch_backout_checks")
+                "history/H1", "history/H3", "history/H5", "history/H6", "history/H8", "history/H7", "winch_backout_checks", "final_stop_checks", "respawn_after_upgrade_checks")
     shards = [{"scenario": sc, "seed": seed, "tier": tier} for sc in scenarios(tier, seed)]
     run.assumptions = [
         "the new master is identified as the live child of the old master that emitted when_ready and is not one of its workers",
